@@ -60,10 +60,12 @@ pub fn run(ctx: &mut Ctx) {
         for j in 0..nflip { ms.push(arr20(&flip(&l.m1, if ctx.quick() { (j * 4 + k) % 160 } else { j }))); }
         ms.push([0u8; 20]); ms.push([0xff; 20]);
         let mut pre = l.m1; pre[19] ^= 0x80; ms.push(pre); // differs only in the very last bit
+        for (w, _) in near_misses(&mut rng, &l.m1) { ms.push(arr20(&w)); }
         emit_server(ctx, "server: accepted M1 + bit flips (batch)", &u, l.v, l.salt, b, l.a_pub, &ms, chal);
         // client: the accepted M2 and its single-bit changes
         let mut m2s = vec![l.m2];
         for j in 0..nflip { m2s.push(arr20(&flip(&l.m2, if ctx.quick() { (j * 4 + k + 1) % 160 } else { j }))); }
+        for (w, _) in near_misses(&mut rng, &l.m2) { m2s.push(arr20(&w)); }
         emit_client(ctx, "client: accepted M2 + bit flips (batch)", &u, &p, l.b_pub, l.salt, a, &m2s);
         // altered A: the server must refuse the honest M1
         let bit = rng.below(256) as usize;
@@ -117,23 +119,27 @@ pub fn run(ctx: &mut Ctx) {
             let det = |what: String| format!("{{\"what\":{},\"user\":{},\"password\":{},\"tape\":\"{}\"}}", jstr(&what), jstr(&u), jstr(&p), hex(&tape));
             // all 160 flips of M1 on the server, payload must be (presented, expected)
             let mut ms = vec![l.m1]; for j in 0..160 { ms.push(arr20(&flip(&l.m1, j))); }
+            let mut why: Vec<String> = (0..161).map(|j: usize| if j == 0 { String::new() } else { format!("bit {} flipped", j - 1) }).collect();
+            for (w, lab) in near_misses(&mut rng, &l.m1) { ms.push(arr20(&w)); why.push(format!("{} ({})", lab, hex(&w))); }
             let out = server_api(&u, l.v, l.salt, b, l.a_pub, &ms, chal);
-            runs += 161;
+            runs += ms.len() as u64;
             if out.len() == 3 {
                 let enc = &out[2]; let mut pos = 0;
                 for (j, m) in ms.iter().enumerate() {
-                    if enc[pos] == 0 { if j != 0 { fails.push(det(format!("server accepted M1 with bit {} flipped", j - 1))); } pos += 1 + 20 + 40 + 16; }
-                    else if enc[pos] == 1 { if j == 0 { fails.push(det("server refused the honest M1".into())); } else if enc[pos + 1..pos + 21] != m[..] || enc[pos + 21..pos + 41] != l.m1[..] { fails.push(det(format!("error payload wrong for bit {}", j - 1))); } pos += 41; }
+                    if enc[pos] == 0 { if j != 0 { fails.push(det(format!("server accepted M1 with {}", why[j]))); } pos += 1 + 20 + 40 + 16; }
+                    else if enc[pos] == 1 { if j == 0 { fails.push(det("server refused the honest M1".into())); } else if enc[pos + 1..pos + 21] != m[..] || enc[pos + 21..pos + 41] != l.m1[..] { fails.push(det(format!("error payload wrong for M1 with {}", why[j]))); } pos += 41; }
                     else { fails.push(det("server panicked".into())); pos += 1; }
                 }
             } else { fails.push(det("server setup failed".into())); }
             // all 160 flips of M2 on the client
             let mut m2s = vec![l.m2]; for j in 0..160 { m2s.push(arr20(&flip(&l.m2, j))); }
-            runs += 161;
+            let mut why2: Vec<String> = (0..160).map(|j: usize| format!("bit {} flipped", j)).collect();
+            for (w, lab) in near_misses(&mut rng, &l.m2) { m2s.push(arr20(&w)); why2.push(format!("{} ({})", lab, hex(&w))); }
+            runs += m2s.len() as u64;
             if let Some(out) = client_api(&u, &p, GENERATOR, NLE, l.b_pub, l.salt, a, &m2s) {
                 if out.len() == 6 {
                     if out[4][0] != 0 { fails.push(det("client refused the honest M2".into())); }
-                    for j in 0..160 { if out[4][j + 1] != 1 { fails.push(det(format!("client accepted M2 with bit {} flipped", j))); } }
+                    for j in 0..why2.len() { if out[4][j + 1] != 1 { fails.push(det(format!("client accepted M2 with {}", why2[j]))); } }
                 } else { fails.push(det("client panicked".into())); }
             }
             // non-canonical A + N with the honest proof must be refused
